@@ -93,6 +93,81 @@ _REG = {"HvsrTraditional.mean_curve": FuncV(_m_mean_curve, "mean_curve"), "HvsrT
 TASKS += [FunctionTask(MCBA, registry=_REG, clauses=["per-azimuth mean curves in azimuth order"]),
           FunctionTask(MCPBA, registry=_REG, clauses=["per-azimuth mean-curve peaks in azimuth order"])]
 
+# ---------------------------------------------------------------------------------------------------------------------
+# the weighted estimators the azimuthal statistics use: _nanmean_weighted / _nanstd_weighted(denominator="cheng") with explicit weights on a
+# NaN-free sample.  Sums over the sample are named (np.nansum trusted): SW = sum w, SWV = sum w g(v), SW2 = sum w^2, SSW(m) = sum w (g(v) - m)^2.
+from pyvc.core import StrV, ARef, ModV, Undecided, lit, NONE as NONE_
+from pyvc import npmodel as npm
+from pyvc.npmodel import SQRT, NAN, EXP, LOG
+import contracts.C05 as C05
+
+NVAL = z3.Int("n_values")
+VALS, WTS = z3.Const("values", AR), z3.Const("weights", AR)
+SW, SW2 = z3.Reals("sum_w sum_w_squared")
+SWV = {"normal": z3.Real("sum_w_v"), "lognormal": z3.Real("sum_w_log_v")}
+SSW = {"normal": z3.Function("SSW_v", R, R), "lognormal": z3.Function("SSW_log_v", R, R)}
+
+
+def _wsum_model(canon):
+    g = (lambda x: x) if canon == "normal" else (lambda x: LOG(x))
+
+    def f(ex, st, args, kw, node):
+        x = args[0]
+        if not isinstance(x, ARef):
+            return x
+        d = ex.arr(st, x)
+        c0 = z3.Int("c!sum")
+        v0, w0 = z3.Select(VALS, c0), z3.Select(WTS, c0)
+        elem = z3.simplify(z3.Select(d.data, c0))
+        subs = []
+        for t in (v0, LOG(v0), w0):                    # NaN-free sample and weights (precondition)
+            subs += [(t == NAN, z3.BoolVal(False)), (NAN == t, z3.BoolVal(False))]
+        elem = z3.simplify(z3.substitute(elem, *subs))
+        e = g(v0)
+        cands = [(w0, SW), (w0 * w0, SW2), (w0 ** 2, SW2), (e * w0, SWV[canon])]
+        m_ = st.env.get("mean")
+        if m_ is not None and z3.is_expr(lit(m_)):
+            cands += [(w0 * (e - lit(m_)) * (e - lit(m_)), SSW[canon](lit(m_))), (w0 * (e - lit(m_)) ** 2, SSW[canon](lit(m_)))]
+        for shape, name in cands:
+            if z3.simplify(elem - shape).eq(z3.RealVal(0)):
+                return name
+        raise Undecided(f"np.nansum of an expression the abstraction does not name: {elem}")
+    return FuncV(f, "np.nansum")
+
+
+def _w_inputs(name):
+    def mk(ex, st):
+        st.env["values"] = ex.alloc_arr(st, (NVAL,), VALS, "real", "param:values", tag="values")
+        st.env["weights"] = ex.alloc_arr(st, (NVAL,), WTS, "real", "param:weights", tag="weights")
+        st.env["distribution"] = StrV(name)
+        st.env["mean_kwargs"] = st.env["std_kwargs"] = NONE_
+        st.env["denominator"] = StrV("cheng")
+        st.env["NVAL"] = NVAL
+        k = z3.Int("k!v")
+        return [NVAL >= 1, SW != 0, 1 - SW2 != 0,
+                z3.ForAll([k], z3.And(z3.Select(VALS, k) != NAN, z3.Select(VALS, k) > 0, LOG(z3.Select(VALS, k)) != NAN, z3.Select(WTS, k) != NAN), patterns=[z3.Select(VALS, k)])]
+    return mk
+
+
+for _name in ("normal", "lognormal"):
+    _np = ModV("np", dict(npm.NP.attrs, nansum=_wsum_model(_name), sum=_wsum_model(_name), isnan=FuncV(C05._isnan_model, "np.isnan")))
+    _env = {"np": _np, "_distribution_factory": C05._factory_model(_name), "DISTRIBUTION_MAP": C05.DISTRIBUTION_MAP}
+    _mean = "SWV / SW" if _name == "normal" else "exp(SWV / SW)"
+    TASKS.append(FunctionTask(Contract(qual="hvsrpy.statistics._nanmean_weighted", params=["distribution", "values", "weights", "mean_kwargs"],
+                                       ghost={"SWV": SWV[_name], "SW": SW, "exp": EXP}, make_inputs=_w_inputs(_name), ensures=[f"result == {_mean}"], modifies=[],
+                                       notes="weighted mean sum w g(v) / sum w (geometric for lognormal)"),
+                              module_env=_env, label=f"hvsrpy.statistics._nanmean_weighted[weighted,{_name}]", clauses=["weighted mean estimator"]))
+
+    def _mean_call(ex, st, args, kw, node, _n=_name):
+        return SWV[_n] / SW if _n == "normal" else EXP(SWV[_n] / SW)
+    _m = "SWV / SW" if _name == "normal" else "log(exp(SWV / SW))"
+    TASKS.append(FunctionTask(Contract(qual="hvsrpy.statistics._nanstd_weighted", params=["distribution", "values", "weights", "std_kwargs", "denominator"],
+                                       ghost={"SWV": SWV[_name], "SW": SW, "SW2": SW2, "SSW": SSW[_name], "exp": EXP, "log": LOG, "sqrt": SQRT},
+                                       make_inputs=_w_inputs(_name), ensures=[f"result == sqrt(SSW({_m}) / (1 - SW2))"], modifies=[],
+                                       notes="Cheng et al. (2020): sqrt( sum w (g(v) - mean)^2 / (1 - sum w^2) )"),
+                              module_env=dict(_env, _nanmean_weighted=FuncV(_mean_call, "_nanmean_weighted")),
+                              label=f"hvsrpy.statistics._nanstd_weighted[weighted,cheng,{_name}]", clauses=["Cheng et al. weighted standard deviation"]))
+
 META = dict(
     level="other",
     explanation="proved also: mean_curve_by_azimuth / mean_curve_peak_by_azimuth route azimuth a to row / entry a; "
